@@ -12,8 +12,7 @@ observed through `Hdr.vals`/`Hdr.has` only (a Go map has no order).  The placeho
 replacer (`httpserver.Replacer`) is a parameter `repl : Str → Str` of the model.
 
 Not modelled (the streams stay away from them, see docs/C04.md): unix/quic targets, websocket
-upgrades, regex header replacements with a non-literal pattern or `$` in the replacement, and any
-header_downstream replacement, non-ASCII white space in `Connection` values
+upgrades, regex header replacements with a non-literal pattern or `$` in the replacement, non-ASCII white space in `Connection` values
 (`strings.TrimSpace` is modelled for ASCII).
 
 CORE LEAN ONLY: this file is linked into the model driver.
@@ -366,8 +365,8 @@ def shallowCopyTrailers (dst trailer : Hdr) (force : Bool) : Hdr :=
 
 /-- `ReverseProxy.ServeHTTP` after the round trip, non-websocket branch.
 `pre` is the header map of the ResponseWriter before the proxy runs. -/
-def respond (hop skip : List Str) (repl : Str → Str) (down : Rules) (pre : Hdr) (res : Response) : ClientView :=
-  let h := applyRules repl (stripHop hop res.header) down
+def respond (hop skip : List Str) (repl : Str → Str) (down : Rules) (dr : Repls) (pre : Hdr) (res : Response) : ClientView :=
+  let h := applyRepls repl (applyRules repl (stripHop hop res.header) down) dr
   let merged := copyHeader skip pre h
   let snap := if res.announced.length > 0 then merged.setRaw sTrailer res.announced else merged
   let force := res.trailer.keys.length != res.announced.length
